@@ -5,7 +5,7 @@ from harness import campaign, observe, strategies
 
 ID = "C09"
 LEVEL = "exploration"
-RULE = ("Hypothesis draws RunSpecs (all optimizers x tasks of every encoding x configs incl. early stopping x seeds x "
+RULE = ("Hypothesis draws RunSpecs (all optimizers x tasks of every encoding x configs incl. early stopping, perturbed parameters and list-valued ranges given high-to-low x seeds x "
         "all three modes), plus calls that raise (unknown mode string, non-positive workers, and whatever input "
         "crashes the algorithm). A deep structural snapshot (recursive over pydantic fields incl. private attributes, "
         "lists, dicts, numpy arrays; types and float bit patterns preserved) of the caller's config object and task "
@@ -21,7 +21,8 @@ BUDGET = {"quick": 15, "thorough": 200}
 def case(draw, optimizer, tier):
     spec = draw(strategies.run_spec(
         optimizer, task=strategies.task_spec(),
-        config=strategies.config_spec(optimizer, max_cycles=(1, 6 if tier == "quick" else 15)),
+        config=strategies.config_spec(optimizer, max_cycles=(1, 6 if tier == "quick" else 15), perturb=0.4,
+                                      reverse_lists=True),
         modes=("serial",) * 8 + ("thread", "process")))
     bad = draw(st.sampled_from([None] * 8 + ["mode", "workers"]))
     if bad == "mode":
